@@ -205,7 +205,8 @@ pub struct MOne {
 pub struct MWatch {
     pub val: u64,
     pub ver: u64,
-    pub tx_alive: bool,
+    /// number of live `Sender` handles
+    pub tx_count: usize,
     pub rx_count: usize,
 }
 
@@ -318,7 +319,7 @@ pub fn init_state(p: &TProgram) -> MState {
             ostx: arr(r.oneshots.iter().map(|(t, _)| *t == b)),
             osrx: arr(r.oneshots.iter().map(|(_, x)| *x == b)),
             os_taken: [false; MAXR],
-            wtx: arr(r.watches.iter().map(|(t, _)| *t == b)),
+            wtx: arr(r.watches.iter().enumerate().map(|(w, (t, _))| *t == b || r.watch_tx_clones.get(w).map(|v| v.contains(&b)).unwrap_or(false))),
             wrx: arr(r.watches.iter().map(|(_, rs)| if rs.contains(&b) { Some(0) } else { None })),
             nslots: [None; NSLOTS],
             handles: vec![],
@@ -351,11 +352,16 @@ pub fn init_state(p: &TProgram) -> MState {
         watches: r
             .watches
             .iter()
-            .map(|(_, rs)| {
+            .enumerate()
+            .map(|(w, (t, rs))| {
                 let mut v = rs.clone();
                 v.sort();
                 v.dedup();
-                MWatch { val: 0, ver: 0, tx_alive: true, rx_count: v.len() }
+                let mut txs: Vec<usize> = r.watch_tx_clones.get(w).cloned().unwrap_or_default();
+                txs.push(*t);
+                txs.sort();
+                txs.dedup();
+                MWatch { val: 0, ver: 0, tx_count: txs.len(), rx_count: v.len() }
             })
             .collect(),
         notifies: vec![MNotify::default(); r.notifies],
